@@ -10,18 +10,20 @@ import (
 
 // Shape families of the full-engine harness (bounds are echoed in evidence through api.Bound).
 const (
-	famSeq         = iota // blocks x sequences x actions, no check groups
-	famPlanGroups         // one block/sequence/action, any subset of the plan-level groups
-	famBlockGroups        // one block/sequence/action, any subset of the block-level groups
-	famBothGroups         // plan-level family x block-level family
-	famConc               // one block, 2..3 sequences of one action: concurrency and tolerance
-	famPlanGroupsSmall    // 1x1x1, plan-level groups from the 7-subset family
-	famBlockGroupsSmall   // 1x1x1, block-level groups from the 7-subset family
-	famConc2              // one block, exactly 2 sequences of one action
-	famSeqSmall           // one block, <=2 sequences, <=2 actions
-	famConc4              // one block, exactly 4 sequences of one action, Concurrency 2: a wave is still in flight when the loop re-checks
-	famContSeqs           // one block with continuous (and optionally deferred) checks and 3 sequences of one action
-	famConc4D             // famConc4 plus block-level deferred checks
+	famSeq              = iota // blocks x sequences x actions, no check groups
+	famPlanGroups              // one block/sequence/action, any subset of the plan-level groups
+	famBlockGroups             // one block/sequence/action, any subset of the block-level groups
+	famBothGroups              // plan-level family x block-level family
+	famConc                    // one block, 2..3 sequences of one action: concurrency and tolerance
+	famPlanGroupsSmall         // 1x1x1, plan-level groups from the 7-subset family
+	famBlockGroupsSmall        // 1x1x1, block-level groups from the 7-subset family
+	famConc2                   // one block, exactly 2 sequences of one action
+	famSeqSmall                // one block, <=2 sequences, <=2 actions
+	famConc4                   // one block, exactly 4 sequences of one action, Concurrency 2: a wave is still in flight when the loop re-checks
+	famContSeqs                // one block with continuous (and optionally deferred) checks and 3 sequences of one action
+	famConc4D                  // famConc4 plus block-level deferred checks
+	famPlanCont                // 1x1x1, plan-level continuous checks over the 7-subset family of block-level groups
+	famContBlocks              // two blocks: the first with continuous (and optionally deferred) checks and 1..2 sequences, the second plain
 )
 
 func vhCfg(fam int) shape.Cfg {
@@ -54,6 +56,10 @@ func vhCfg(fam int) shape.Cfg {
 		return shape.Cfg{MinBlocks: 1, MaxBlocks: 1, MinSeqs: 4, MaxSeqs: 4, MinActions: 1, MaxActions: 1, BlockGroups: shape.GroupsDeferred, CheckActions: 1}
 	case famContSeqs:
 		return shape.Cfg{MinBlocks: 1, MaxBlocks: 1, MinSeqs: 3, MaxSeqs: 3, MinActions: 1, MaxActions: 1, BlockGroups: shape.GroupsContDeferred, CheckActions: 1}
+	case famPlanCont:
+		return shape.Cfg{MinBlocks: 1, MaxBlocks: 1, MinSeqs: 1, MaxSeqs: 1, MinActions: 1, MaxActions: 1, PlanGroups: shape.GroupsCont, BlockGroups: shape.GroupsFamily, CheckActions: 1}
+	case famContBlocks:
+		return shape.Cfg{MinBlocks: 2, MaxBlocks: 2, MinSeqs: 1, MaxSeqs: 2, MinActions: 1, MaxActions: 1, BlockGroups: shape.GroupsContDeferred, CheckActions: 1, SimpleTailBlocks: true}
 	case famSeqSmall:
 		return shape.Cfg{MinBlocks: 1, MaxBlocks: 1, MinSeqs: 1, MaxSeqs: 2, MinActions: 1, MaxActions: 2, SimpleTailSeqs: true}
 	}
@@ -79,6 +85,13 @@ func vhFamAssume(w *vhWorld, fam int) {
 		if api.Bound("conc4_any_tolerance", 0, 1) == 0 {
 			api.Assume(b.ToleratedFailures == 0)
 		}
+	case famContBlocks:
+		// the subject is the hand-over from a block with continuous checks to the next block
+		if api.Bound("contblocks_any_tolerance", 0, 1) == 0 {
+			for _, x := range w.plan.Blocks {
+				api.Assume(x.ToleratedFailures == -1)
+			}
+		}
 	case famContSeqs:
 		// 3 sequences one at a time: the launch loop polls the continuous checks between launches
 		api.Assume(b.Concurrency == 1)
@@ -93,11 +106,15 @@ func VerifC01PlanGroups()  { vhRunE(oC01, famPlanGroups) }
 func VerifC01BlockGroups() { vhRunE(oC01, famBlockGroups) }
 func VerifC01Conc()        { vhRunE(oC01, famConc) }
 
-func VerifC01Conc4()       { vhRunE(oC01, famConc4D) }
-func VerifC01ContSeqs()    { vhRunE(oC01, famContSeqs) }
+func VerifC01Conc4()    { vhRunE(oC01, famConc4D) }
+func VerifC01ContSeqs() { vhRunE(oC01, famContSeqs) }
 
-func VerifC02Conc() { vhRunE(oC02, famConc) }
-func VerifC02Seq()  { vhRunE(oC02, famSeq) }
+func VerifC01ContBlocks() { vhRunE(oC01, famContBlocks) }
+
+func VerifC02Conc()       { vhRunE(oC02, famConc) }
+func VerifC02ContBlocks() { vhRunE(oC02, famContBlocks) }
+func VerifC02ContSeqs()   { vhRunE(oC02, famContSeqs) }
+func VerifC02Seq()        { vhRunE(oC02, famSeq) }
 
 func VerifC03Conc() { vhRunE(oC03, famConc) }
 func VerifC03Seq()  { vhRunE(oC03, famSeq) }
@@ -105,6 +122,11 @@ func VerifC03Seq()  { vhRunE(oC03, famSeq) }
 func VerifC04Conc4()       { vhRunE(oC04, famConc4) }
 func VerifC04ContSeqs()    { vhRunE(oC04, famContSeqs) }
 func VerifC07ContSeqs()    { vhRunE(oC07, famContSeqs) }
+func VerifC04ContBlocks()  { vhRunE(oC04, famContBlocks) }
+func VerifC07BothGroups()  { vhRunE(oC07, famBothGroups) }
+func VerifC07PlanCont()    { vhRunE(oC07, famPlanCont) }
+func VerifC04PlanCont()    { vhRunE(oC04, famPlanCont) }
+func VerifC01PlanCont()    { vhRunE(oC01, famPlanCont) }
 func VerifC04Seq()         { vhRunE(oC04, famSeq) }
 func VerifC04PlanGroups()  { vhRunE(oC04, famPlanGroups) }
 func VerifC04BlockGroups() { vhRunE(oC04, famBlockGroups) }
